@@ -21,7 +21,7 @@ RULE = ("agent parameter grids x market states (price histories built by real tr
 WIT = ["fcn_buy", "fcn_sell", "fcn_nothing", "fcn_inaccessible", "fcn_clock_below_window", "fcn_mean_reversion_distinct",
        "share_choice_0", "share_choice_1", "share_zero_volume", "mm_quotes", "mm_base_from_market_price", "mm_inaccessible_market_ignored",
        "mm_market_order_on_top", "arb_no_action_within_threshold", "arb_gap_exactly_threshold", "arb_buy_index", "arb_sell_index",
-       "arb_not_running", "arb_two_indices_acted", "test_agent_cases", "well_formed_orders"]
+       "arb_not_running", "arb_two_indices_acted", "arb_component_moved_between_consultations", "test_agent_cases", "fcn_normal_margin_cases", "well_formed_orders"]
 
 
 class Sim:
@@ -143,6 +143,29 @@ def fcn_fn(case, wit):
                 wit.inc("fcn_clock_below_window")
             if mr and mr != win:
                 wit.inc("fcn_mean_reversion_distinct")
+    # normal-margin mode: the side rule and well-formedness hold as well; the quote is expected price + noise x margin
+    for (wf, wc, wn) in ((1, 0, 0), (1, 1, 1), (0, 3, 1)):
+        for g in (-2.0, 0.0, 2.0):
+            for win in (1, 5):
+                for k in (0.0, 0.5):
+                    a = FCNAgent(3, StubRandom(g=g), Sim(), "a")
+                    a.setup({"cashAmount": 100, "assetVolume": 1, "fundamentalWeight": wf, "chartWeight": wc, "noiseWeight": wn, "noiseScale": 2.0 ** -7,
+                             "timeWindowSize": win, "orderMargin": k, "marginType": "normal"}, [0])
+                    orders = a.submit_orders([m])
+                    for o in orders:
+                        well_formed(o, a, wit)
+                    p, r, ph = fcn_reference(m, fund, wf, wc, wn, 2.0 ** -7, g, win, None)
+                    if r == 0.0:
+                        ok = not orders
+                    elif abs(ph - p) <= 1e-12 * p:
+                        continue
+                    else:
+                        ok = (len(orders) == 1 and orders[0].is_buy == (ph > p) and abs(orders[0].price - (ph + g * k)) <= 1e-9 * ph
+                              and orders[0].ttl == win and orders[0].volume == 1)
+                    if not ok:
+                        raise Violation("C20.fcn_normal_margin", "an FCN agent in normal-margin mode does not buy exactly when its expected price exceeds the market price (quote = expected price + noise x margin)",
+                                        "history %s fundamental %s weights (%s,%s,%s) noise %s window %s margin %s -> %r" % (hist, fund, wf, wc, wn, g, win, k, orders))
+                    wit.inc("fcn_normal_margin_cases")
     # not accessible: nothing
     a = FCNAgent(3, StubRandom(g=1.0), Sim(), "a")
     a.setup({"cashAmount": 100, "assetVolume": 1, "fundamentalWeight": 1, "chartWeight": 1, "noiseWeight": 1, "noiseScale": 0.01,
@@ -426,11 +449,17 @@ def arb2_fn(case, wit):
     a = ArbitrageAgent(7, random.Random(0), sim, "arb")
     a.setup({"cashAmount": 1, "assetVolume": 1, "orderVolume": v, "orderThresholdPrice": 0.5, "orderTimeLength": 2}, [0, 1, 2, 3, 4])
     markets = comps + (idxs if order == "idx2_first" else idxs[::-1])
-    for _ in range(repeat):
+    comp_prices = [100.0, 102.0, 98.0]
+    for rep in range(repeat):
+        if rep == 1:
+            # between two consultations in the SAME step a component trades at a new price
+            trade(comps[0], 0, 106)
+            comp_prices[0] = 106.0
+            wit.inc("arb_component_moved_between_consultations")
         orders = a.submit_orders(markets)
         for o in orders:
             well_formed(o, a, wit)
-        for idx, ncomp, ci, ip in ((idxs[0], 2, 101.0, p2), (idxs[1], 3, 100.0, p3)):
+        for idx, ncomp, ci, ip in ((idxs[0], 2, sum(comp_prices[:2]) / 2, p2), (idxs[1], 3, sum(comp_prices) / 3, p3)):
             io = [o for o in orders if o.market_id == idx.market_id]
             if abs(ip - ci) <= 0.5:
                 if io:
